@@ -5,6 +5,7 @@ from . import _cm
 from ..lemmas_cm import lemmas_c01
 
 KERNELS = ["countmin._query_linear", "countmin._add_linear", "countmin._merge_linear"]
+from . import _glue, _oracle
 
 
 def run(chk):
@@ -21,6 +22,13 @@ def run(chk):
     # canary: the lower bound with an off-by-one (estimate >= true + 1) must not be provable
     name, hyps, goal = [l for l in lem if l[0] == "c01:estimate>=true"][0]
     chk.prove("canary:c01:estimate>=true+1", hyps + [z3.Int("depth") == 1, z3.Int("width") == 1], z3.Int("res") >= z3.Function("f", z3.IntSort(), z3.IntSort())(z3.Int("key")) + 1, expect="refuted")
+    chk.kernel("countmin._add_ngram_linear")
+    _glue.glue_part(chk, ["CountMinLinear"], {"add", "query", "getitem", "update", "add_ngram", "update_ngram"}, lambda: _oracle.c01_history(chk, 200))
+    hn = 30 if chk.tier == "quick" else 1500
+    hb = _oracle.c01_history(chk, hn)
+    if hb:
+        chk.violation("CountMinLinear:bounded:history-oracle", {"verdict": "bounded oracle failed"}, hb)
+    chk.bounded_standin("random histories on the real CountMinLinear (adds incl. multiplicities > 2^32, dict/list updates, ngrams, merges, save/load): true <= estimate <= collision bound", "%d histories, widths 1..5, depths 1..3" % hn, hn, int(bool(hb)))
     _cm.crosscheck_linear(chk)
     n = 25 if chk.tier == "quick" else 600
     cases, bad = _cm.runtime_search(chk, KERNELS, n, only=None)
